@@ -215,6 +215,10 @@ type Engine struct {
 	lemmasUsed    map[string]bool
 	leafClass     []leafClass
 	curProp       string
+	regexSeq      int
+	tier          string
+	curWork       *[]*State
+	alt           *altResult
 	pruneCalls    int
 	seqArrays     map[string][]*Term
 	probing       bool
@@ -966,4 +970,12 @@ func asBool(v Value) *Term {
 		return x.T
 	}
 	panic(execError{fmt.Sprintf("expected bool value, got %T", v)})
+}
+
+// altResult: an external-call model with two outcomes.  The main path continues with the returned
+// value under `cond`; a forked path continues with `val` under ¬cond.
+type altResult struct {
+	cond  *Term
+	val   Value
+	facts []*Term // assumed on the main path only
 }
